@@ -85,9 +85,9 @@ def send(conn, tag, cmd):
     return {"op": "send", "conn": conn, "data": "%s %s\r\n" % (tag, cmd), "until": "tag:" + tag, "_tag": tag, "_cmd": cmd}
 
 
-def append_ops(conn, tag, flags=""):
+def append_ops(conn, tag, flags="", mailbox="INBOX"):
     fl = (" (%s)" % flags) if flags else ""
-    return [{"op": "send", "conn": conn, "data": "%s APPEND INBOX%s {%d}\r\n" % (tag, fl, len(MSG)), "until": "cont:" + tag},
+    return [{"op": "send", "conn": conn, "data": "%s APPEND %s%s {%d}\r\n" % (tag, mailbox, fl, len(MSG)), "until": "cont:" + tag},
             {"op": "send", "conn": conn, "data": MSG + "\r\n", "until": "tag:" + tag, "_tag": tag, "_cmd": "APPEND"}]
 
 
@@ -145,8 +145,8 @@ class Scenario:
         self.ops.append(send(conn, self.tag(), cmd))
         return len(self.ops) - 1
 
-    def append(self, flags=""):
-        self.ops += append_ops("c", self.tag(), flags)
+    def append(self, flags="", mailbox="INBOX"):
+        self.ops += append_ops("c", self.tag(), flags, mailbox)
         return len(self.ops) - 1
 
     def probe(self):
@@ -269,16 +269,27 @@ def build_noop_scenario(rng, name, k, dels):
     return sc
 
 
-def build_junk_scenario(rng, name, k, ast):
+def build_junk_scenario(rng, name, k, ast, uid=False, spam=False):
+    """STORE / UID STORE <set> +FLAGS (Junk) in INBOX, or (NonJunk) in Spam: every addressed message is
+    auto-moved and announced with an untagged EXPUNGE; the client applies the notices in order"""
     sc = Scenario(name)
+    box = "Spam" if spam else "INBOX"
     for _ in range(k):
-        sc.append("")
-    sc.cmd("SELECT INBOX")
+        sc.append("", box)
+    sc.cmd("SELECT %s" % box)
     p = sc.probe()
-    e = sc.cmd("STORE %s +FLAGS (Junk)" % print_ast(ast))
+    e = sc.cmd("%sSTORE %s +FLAGS (%s)" % ("UID " if uid else "", print_ast(ast), "NonJunk" if spam else "Junk"))
     q = sc.probe()
-    sc.step("junk", {"s": print_ast(ast), "ast": ast}, [p, e, q])
+    a = sc.cmd("FETCH 1:* (UID)")
+    b = sc.cmd("UID SEARCH ALL")
+    sc.step("uidjunk" if uid else "junk", {"s": print_ast(ast), "ast": ast, "box": box}, [p, e, q, a, b])
     return sc
+
+
+# non-ascending and overlapping comma lists (seeded change C09-5: notice = seq - moved)
+JUNK_SETS = [[("one", 3), ("one", 1)], [("one", 4), ("one", 2), ("one", 3)], [("one", "*"), ("one", 1)],
+             [("one", 2), ("one", 2)], [("range", 3, 2), ("one", 1)], [("one", 1), ("range", 3, 2)],
+             [("range", 2, 4), ("one", 1), ("one", 5)], [("one", 5), ("range", 4, 1)]]
 
 
 def build_probe_scenario(rng, name, k, probes, flags=None):
@@ -405,7 +416,7 @@ def corpus_scenarios(rng):
         elif w["kind"] == "noop":
             out.append(build_noop_scenario(rng, name, w["k"], w["dels"]))
         elif w["kind"] == "junk":
-            out.append(build_junk_scenario(rng, name, w["k"], [tuple(x) for x in w["ast"]]))
+            out.append(build_junk_scenario(rng, name, w["k"], [tuple(x) for x in w["ast"]], uid=w.get("uid", False), spam=w.get("spam", False)))
         elif w["kind"] == "expunge_flags":
             out.append(build_probe_scenario(rng, name, len(w["flags"]), [], flags=w["flags"]))
         else:
@@ -490,15 +501,19 @@ def case_of_step(kind, meta, R):
     if kind == "noop":
         e, q = R[1], R[2]
         return "(case_noop %s %s %s)" % (zl(uids), zl([u for (_, u, _) in state_of(q)]), zl(e["expunge"]))
-    if kind == "junk":
+    if kind in ("junk", "uidjunk"):
         e, q = R[1], R[2]
-        return "(case_junk %s %s %s %s %s)" % (s, coq_pre(st), zl(e["expunge"]), zl([u for (_, u, _) in state_of(q)]), ast)
+        post = [u for (_, u, _) in state_of(q)]
+        if len(R) > 3:     # the listings after the command must describe the same mailbox as the probe
+            if [y for (_, y, _) in R[3]["fetch"]] != post or [x for (x, _, _) in R[3]["fetch"]] != list(range(1, len(post) + 1)) or (R[4]["search"] or []) != post:
+                return "(case_views [(1, 1)] 0 0 [] [])"     # inconsistent listings: reported through the views spec
+        return "(case_%s %s %s %s %s %s)" % (kind, s, coq_pre(st), zl(e["expunge"]), zl(post), ast)
     return None
 
 
 def nontrivial(kind, meta):
     ast = meta.get("ast")
-    if kind in ("views", "expunge", "close", "noop", "uidexpunge", "junk", "session"):
+    if kind in ("views", "expunge", "close", "noop", "uidexpunge", "junk", "uidjunk", "session"):
         return True
     return ast is not None and (len(ast) > 1 or ast[0][0] == "range" or ast[0][1] == "*")
 
@@ -564,7 +579,16 @@ def run(chk):
         scs.append(build_noop_scenario(rng, "noop%d" % j, k, sorted(rng.sample(range(1, k + 1), rng.randint(1, 2)), reverse=True)))
     for j in range(4 if quick else 16):
         k = rng.randint(2, 6)
-        scs.append(build_junk_scenario(rng, "junk%d" % j, k, gen_ast(rng, k)))
+        scs.append(build_junk_scenario(rng, "junk%d" % j, k, gen_ast(rng, k), uid=rng.random() < 0.5, spam=rng.random() < 0.5))
+    for j, ast in enumerate(JUNK_SETS):
+        for uid in (False, True):
+            for spam in (False, True):
+                scs.append(build_junk_scenario(rng, "junklist%d%s%s" % (j, "u" if uid else "s", "S" if spam else "I"), 5, ast, uid=uid, spam=spam))
+    for j in range(0 if quick else 40):
+        k = rng.randint(3, 7)
+        ast = [("one", x) for x in rng.sample(range(1, k + 1), rng.randint(2, min(4, k)))] + ([("one", "*")] if rng.random() < 0.3 else [])
+        rng.shuffle(ast)
+        scs.append(build_junk_scenario(rng, "junkperm%d" % j, k, ast, uid=rng.random() < 0.5, spam=rng.random() < 0.5))
     for j in range(14 if quick else 90):
         scs.append(build_session_scenario(rng, "sess%d" % j, risky=False))
     for j in range(5 if quick else 30):
@@ -640,7 +664,7 @@ def run(chk):
         if not spec_ok:
             nd += 1
             what = "%s/%s: the implementation's answer violates the C09 specification" % (suite, kind)
-            if kind in ("fetch", "search", "searchuid", "uidsearch", "copy", "store", "uidstore", "uidfetch", "uidexpunge", "junk"):
+            if kind in ("fetch", "search", "searchuid", "uidsearch", "copy", "store", "uidstore", "uidfetch", "uidexpunge", "junk", "uidjunk"):
                 what += " for set %r on a mailbox %s" % (payload.get("meta", payload).get("s", payload.get("set")), [u for (_, u, _) in (payload.get("state") or [])] or payload.get("uids"))
             elif kind == "noop":
                 what += ": NOOP notices after another session expunged %r of %d" % (payload["meta"]["dels"], payload["meta"]["k"])
